@@ -547,12 +547,25 @@ fn scenario_reclaim(rep: &mut Report, r: &mut Rng, clock: &Clock, d: Duration, n
         clock.advance(d + EPS + d / 4);
     }
     let held_idle = live_endpoints() - base_eps;
-    // one unrelated call
-    other_request(&mut server, 424242, &mut mid);
+    // one unrelated call - an ordinary request, or one that the handler refuses (its path alone is
+    // longer than the budget): "the next use of the handler" either way
+    let refused_probe = r.bool();
+    if refused_probe {
+        let long = "x".repeat(1300);
+        let mut q = ReqSpec::new(1, &["refused", &long]);
+        mid = mid.wrapping_add(1);
+        q.mid = mid;
+        let mut app = small_app();
+        let _ = server.exchange(&q.bytes(), 4242, &mut app);
+        rep.count("reclaim_probes_that_the_handler_refused");
+    } else {
+        other_request(&mut server, 424242, &mut mid);
+    }
     let held_after = live_endpoints() - base_eps;
     let live_after = alloc_count::live();
-    // exactly the one new entry remains (2 endpoint instances), plus the keys kept busy
-    if held_after != 2 + 2 * busy_keys {
+    // exactly the one new entry remains (2 endpoint instances), plus the keys kept busy (a refused
+    // request need not leave an entry of its own)
+    if held_after != 2 + 2 * busy_keys && !(refused_probe && held_after == 2 * busy_keys) {
         rep.violation(
             "expired-entries-not-reclaimed",
             format!("{} abandoned transfers, idle past the expiry, one unrelated handler call: the handler still holds {} endpoint instances ({} cache entries) instead of {} (held {} before, {} while idle)", n, held_after, held_after / 2, 2 + 2 * busy_keys, held, held_idle),
